@@ -301,6 +301,9 @@ func (g *gen) writeExprBinaryOp(b *buffer, n *a.Expr, depth uint32) error {
 		}
 		b.printf("wuffs_base__u%d__sat_%s", uBits, uOp)
 		opName = ", "
+		// The sat_etc functions already return the narrow type. An overall cast
+		// would also wrap both arguments: "sat_add((uint8_t)(x, y))".
+		overallCast = false
 
 	case t.IDXBinaryAs:
 		return g.writeExprAs(b, n.LHS().AsExpr(), n.RHS().AsTypeExpr(), depth)
